@@ -35,6 +35,9 @@ pub enum Step {
     /// the application sets the record's UDP socket itself (Discv5::update_local_enr_socket) to a
     /// candidate address - a change that does not come from PONGs; the votes stay as they are
     ManualUpdate { cand: u8 },
+    /// the voter moves: a new session with a newer record advertising another socket (same node id);
+    /// its later PONGs come from there - it is still ONE peer with one vote
+    Move { voter: u8 },
 }
 
 #[derive(Clone, Debug, PartialEq, Eq, Hash, Serialize, Deserialize)]
@@ -205,6 +208,7 @@ async fn run(case: &Case, rep: &mut CaseReport) -> Option<(String, String)> {
     let mut backlogs = 0;
     let mut updates_after_idle = 0u64;
     let mut manual_updates = 0u64;
+    let mut moved: HashMap<usize, u64> = HashMap::new();
     // per family: the socket the application set last, while no vote-driven update has replaced it
     let mut set_by_app: HashMap<bool, SocketAddr> = HashMap::new();
     for step in &case.steps {
@@ -247,6 +251,20 @@ async fn run(case: &Case, rep: &mut CaseReport) -> Option<(String, String)> {
                     rep.class("record-socket-set-by-the-application-in-between");
                 }
                 s.settle().await;
+            }
+            Step::Move { voter } => {
+                let v = *voter as usize % nv;
+                if case.expiry || v >= case.first_incoming as usize {
+                    continue;
+                }
+                let k = 600 + v as u32;
+                let n = moved.entry(v).or_insert(1u64);
+                *n += 1;
+                let sock = SocketAddr::new(IpAddr::V4(Ipv4Addr::new(10, 44, v as u8, *n as u8)), 7000 + *n as u16);
+                let rec = crate::engines::wire::node_record(&keys::key(k), Some(sock), None, *n);
+                outstanding.remove(&v);
+                s.inject(HandlerOut::Established(rec, sock, ConnectionDirection::Outgoing)).await;
+                rep.class("voter-moved-to-another-socket");
             }
             Step::EventBacklog => {
                 if backlogs >= 1 {
@@ -437,6 +455,7 @@ impl Property for C17 {
             1 => (0u8..24).prop_map(|voter| Step::Fail { voter }),
             1 => Just(Step::EventBacklog),
             1 => (0u8..4).prop_map(|cand| Step::ManualUpdate { cand }),
+            2 => (0u8..24).prop_map(|voter| Step::Move { voter }),
         ];
         let free = (any::<bool>(), 2u8..=7, prop_oneof![2 => 3u8..=14, 1 => 12u8..=24], prop_oneof![3 => Just(99u8), 1 => 0u8..14], 2u8..=4, proptest::collection::vec(step, 1..70), prop_oneof![12 => Just(false), 1 => Just(true)])
             .prop_map(|(dual, min, n_voters, first_incoming, n_cands, steps, tight_record)| Case { dual, min, n_voters, first_incoming, n_cands, steps, expiry: false, tight_record, table: None });
@@ -500,7 +519,7 @@ impl Property for C17 {
         rep
     }
     fn rule() -> String {
-        "a real service with a scripted handler (IPv4 or dual stack, enr_peer_update_min 2..6, vote duration 10 min, ping interval 10 s virtual, connectivity timer off); 3..24 voters become table members through Established (outgoing; in a quarter of the cases some are incoming); the service's own PINGs are answered per script with PONGs naming one of 2..4 candidate addresses (IPv6 candidates in dual stack), voters change their vote in later ping rounds, some PINGs fail or stay unanswered; now and then the application sets the record's socket itself (update_local_enr_socket) to one of the candidates, after which the votes may move it back. Ledger: latest vote per voter. Whenever the UDP socket of local_enr() changes between two steps: the step's input was a PONG; the new address has >= minimum current votes from distinct voters; (all voters eligible) it is the unique maximum and every rival has fewer than 70% of its votes; seq increased, the signature verifies, and Event::SocketUpdated(address) was emitted in that step; an address named by fewer than the minimum number of peers is never taken. Expiry regime (one case in 41): vote duration 80 ms of real time, some voters name an address, a measured real idle period of more than 1.3 x the vote duration follows, then further voters name it; an update then needs at least the minimum number of peers whose naming is not certainly expired. One case in 15 is a companion on the vote table alone (hook VIpVote around service::ip_vote::IpVote, vote duration 1 h): up to 8 blocks of 1..700 voters (voter ids 0..1400, fresh voters and voters changing their vote) name one of 6 addresses of both families, minimum 2..12; after every block the majority of each family is read and, if there is one, must have >= minimum current votes, be the unique maximum and lead every rival by the exact 70% rule - with hundreds of voters, which no routing table holds. Non-trivial = two candidates with >= 2 votes each, a voter changing its vote, or an update; companion: a majority was named among >= 30 voters.".into()
+        "a real service with a scripted handler (IPv4 or dual stack, enr_peer_update_min 2..6, vote duration 10 min, ping interval 10 s virtual, connectivity timer off); 3..24 voters become table members through Established (outgoing; in a quarter of the cases some are incoming); the service's own PINGs are answered per script with PONGs naming one of 2..4 candidate addresses (IPv6 candidates in dual stack), voters change their vote in later ping rounds, voters move (a new session with a newer record at another socket, later PONGs come from there; still one peer, one vote), some PINGs fail or stay unanswered; now and then the application sets the record's socket itself (update_local_enr_socket) to one of the candidates, after which the votes may move it back. Ledger: latest vote per voter. Whenever the UDP socket of local_enr() changes between two steps: the step's input was a PONG; the new address has >= minimum current votes from distinct voters; (all voters eligible) it is the unique maximum and every rival has fewer than 70% of its votes; seq increased, the signature verifies, and Event::SocketUpdated(address) was emitted in that step; an address named by fewer than the minimum number of peers is never taken. Expiry regime (one case in 41): vote duration 80 ms of real time, some voters name an address, a measured real idle period of more than 1.3 x the vote duration follows, then further voters name it; an update then needs at least the minimum number of peers whose naming is not certainly expired. One case in 15 is a companion on the vote table alone (hook VIpVote around service::ip_vote::IpVote, vote duration 1 h): up to 8 blocks of 1..700 voters (voter ids 0..1400, fresh voters and voters changing their vote) name one of 6 addresses of both families, minimum 2..12; after every block the majority of each family is read and, if there is one, must have >= minimum current votes, be the unique maximum and lead every rival by the exact 70% rule - with hundreds of voters, which no routing table holds. Non-trivial = two candidates with >= 2 votes each, a voter changing its vote, or an update; companion: a majority was named among >= 30 voters.".into()
     }
     fn assumptions() -> Vec<String> {
         vec![
